@@ -113,6 +113,20 @@ def h_step(ctx, cap, prefetch, video):
             if rest:
                 a, b = pre_held[last], pre_held[min(rest)]
                 ctx.check(sx.Or(late_reset, a.sequence_number == seq, a.timestamp != b.timestamp), "eviction-ends-at-a-frame-boundary")
+    # completeness (prefetch 0): if no frame came back, no complete frame is waiting at the origin,
+    # i.e. a run of held packets with one timestamp starting at the origin and followed, anywhere
+    # in the window up to its last slot, by a held packet of another timestamp
+    if prefetch == 0 and frame is None:
+        om2 = sx.concretize_int(jb._origin % cap) if sx.active() else jb._origin % cap
+        slots = [jb._packets[(om2 + k) % cap] for k in range(cap)]
+        waiting = []
+        for m in range(1, cap):
+            if all(slots[k] is not None for k in range(m + 1)):
+                same = [slots[k].timestamp == slots[0].timestamp for k in range(1, m)]
+                waiting.append(sx.And(*(same + [slots[m].timestamp != slots[0].timestamp])))
+        if waiting:
+            # (a late packet is dropped without looking at the buffer: no release is owed then)
+            ctx.check(sx.Or(dropped_late, sx.Not(sx.Or(*waiting))), "complete-frame-at-the-origin-is-released")
     ctx.observe("pli", pli)
     ctx.observe("frame", None if frame is None else (list(frame.data), frame.timestamp))
     ctx.observe("origin", jb._origin)
